@@ -97,8 +97,9 @@ type Service struct {
 func (s *Service) String() string { return fmt.Sprintf("Service<%s>", s.Name) }
 
 // Running returns true as soon as start returns, and returns false
-// after close is called.
-func (s *Service) Running() bool { return s.isRunning.Load() }
+// after close is called. Running is always false once the service
+// has finished, and therefore after Wait has returned.
+func (s *Service) Running() bool { return s.isRunning.Load() && !s.isFinished.Load() }
 
 // Start launches the configured service and tracks  its lifecycle. If
 // the context is canceled, the service returns, and any errors
@@ -113,12 +114,12 @@ func (s *Service) Start(ctx context.Context) error {
 	}
 	verifYield("srv.Service.Start.checked")
 
-	if s.isRunning.Swap(true) {
-		return ErrServiceAlreadyStarted
-	}
-
+	// only the call that runs the body of the sync.Once started
+	// the service; every other call reports that it already runs.
+	var err error = ErrServiceAlreadyStarted
 	s.doStart.Do(func() {
-		defer s.isRunning.Store(true)
+		err = nil
+		s.isRunning.Store(true)
 		defer s.isStarted.Store(true)
 		ec := &s.ec
 		ehSignal := make(chan struct{})
@@ -186,7 +187,7 @@ func (s *Service) Start(ctx context.Context) error {
 		verifYield("srv.Service.Start.launched")
 	})
 
-	return nil
+	return err
 }
 
 // Close forceably shuts down the service, causing the background
